@@ -73,6 +73,16 @@ def compare(chk, kind, st, arr, els, hist, what="array"):
                 if got[i] != rows[i]:
                     chk.violation(f"bounds/{kind}/row-differs/{classes[i]}", dict(rep, row=i, impl=got[i], model=rows[i]), size=sz)
                     break
+        # what a caller does to the array it was handed (padding the boxes, replacing NaN) is the caller's own business: asking again
+        # gives the extents of the geometry
+        try:
+            if b.size and b.flags.writeable:
+                b[...] = np.where(np.isnan(b), 0.0, b) + 100.0
+            again = [canon_row(r_) for r_ in np.asarray(arr.bounds).tolist()]
+            if n and again != rows and b.shape == (n, 4):
+                chk.violation(f"bounds/{kind}/changed-by-modifying-an-earlier-result", dict(rep, second_call=again[:4], model=rows[:4]), size=sz)
+        except Exception as e:  # noqa: BLE001
+            chk.violation(f"bounds/{kind}/second-call-raises-{common.err_kind(e)}", dict(rep, error=repr(e)[:200]), size=sz)
         chk.count(f"{kind}:bounds")
     # total bounds
     try:
